@@ -1642,3 +1642,99 @@ def index_to_unpack(fn) -> int:
         ast.fix_missing_locations(comp)
         n += 1
     return n
+
+
+def inline_method_aliases(fn, method_names) -> int:
+    """`cleanup = self.cleanup` (a method of the enclosing class, cached in a local that is assigned once and nowhere re-bound, also not in
+    nested functions) is `self.cleanup` wherever the local is read -- including the nested functions that close over it"""
+    if not isinstance(fn, (ast.FunctionDef, ast.AsyncFunctionDef)) or not fn.args.args or fn.args.args[0].arg != "self":
+        return 0
+    stores = {}
+    for x in ast.walk(fn):
+        if isinstance(x, ast.Name) and isinstance(x.ctx, (ast.Store, ast.Del)):
+            stores[x.id] = stores.get(x.id, 0) + 1
+        elif isinstance(x, ast.arg) and x is not fn.args.args[0]:
+            stores[x.arg] = stores.get(x.arg, 0) + 1
+    if stores.get("self"):
+        return 0
+    n = 0
+    for body in _stmt_lists(fn):
+        for i, st in enumerate(body):
+            if not (isinstance(st, ast.Assign) and len(st.targets) == 1 and isinstance(st.targets[0], ast.Name)):
+                continue
+            v = st.value
+            if not (isinstance(v, ast.Attribute) and isinstance(v.value, ast.Name) and v.value.id == "self" and v.attr in method_names):
+                continue
+            name = st.targets[0].id
+            if stores.get(name) != 1:
+                continue
+            # no store into self.<method> anywhere
+            if any(isinstance(x, ast.Attribute) and isinstance(x.ctx, (ast.Store, ast.Del)) and isinstance(x.value, ast.Name) and x.value.id == "self" and x.attr == v.attr for x in ast.walk(fn)):
+                continue
+
+            class S(ast.NodeTransformer):
+                def visit_Name(self, x):
+                    if x.id == name and isinstance(x.ctx, ast.Load):
+                        return ast.copy_location(ast_copy(v), x)
+                    return x
+
+            body[i] = ast.copy_location(ast.Pass(), st)
+            for b2 in [fn.body]:
+                for k, s2 in enumerate(b2):
+                    b2[k] = S().visit(s2)
+            ast.fix_missing_locations(fn)
+            n += 1
+    return n
+
+
+def len_truthiness(fn) -> int:
+    """In a test position `len(x) > 0` / `0 < len(x)` / `len(x) != 0` / `len(x) >= 1` is `x`, `len(x) == 0` / `len(x) < 1` is `not x`, and a bare `len(x)` is `x`"""
+    n = 0
+
+    def conv(e):
+        nonlocal n
+        if isinstance(e, ast.BoolOp):
+            e.values = [conv(v) for v in e.values]
+            return e
+        if isinstance(e, ast.UnaryOp) and isinstance(e.op, ast.Not):
+            e.operand = conv(e.operand)
+            return e
+
+        def is_len(x):
+            return isinstance(x, ast.Call) and isinstance(x.func, ast.Name) and x.func.id == "len" and len(x.args) == 1 and not x.keywords
+
+        def const(x, v):
+            return isinstance(x, ast.Constant) and type(x.value) is int and x.value == v
+
+        if is_len(e):
+            n += 1
+            return e.args[0]
+        if isinstance(e, ast.Compare) and len(e.ops) == 1:
+            l, op, r = e.left, e.ops[0], e.comparators[0]
+            pos = neg = None
+            if is_len(l):
+                if (isinstance(op, (ast.Gt, ast.NotEq)) and const(r, 0)) or (isinstance(op, ast.GtE) and const(r, 1)):
+                    pos = l.args[0]
+                elif (isinstance(op, ast.Eq) and const(r, 0)) or (isinstance(op, ast.Lt) and const(r, 1)) or (isinstance(op, ast.LtE) and const(r, 0)):
+                    neg = l.args[0]
+            elif is_len(r):
+                if (isinstance(op, (ast.Lt, ast.NotEq)) and const(l, 0)) or (isinstance(op, ast.LtE) and const(l, 1)):
+                    pos = r.args[0]
+                elif (isinstance(op, ast.Eq) and const(l, 0)) or (isinstance(op, ast.Gt) and const(l, 1)) or (isinstance(op, ast.GtE) and const(l, 0)):
+                    neg = r.args[0]
+            if pos is not None:
+                n += 1
+                return ast.copy_location(pos, e)
+            if neg is not None:
+                n += 1
+                return ast.copy_location(ast.UnaryOp(op=ast.Not(), operand=neg), e)
+        return e
+
+    for x in ast.walk(fn):
+        if isinstance(x, (ast.If, ast.While, ast.IfExp, ast.Assert)):
+            x.test = conv(x.test)
+        elif isinstance(x, ast.comprehension):
+            x.ifs = [conv(i) for i in x.ifs]
+    if n:
+        ast.fix_missing_locations(fn)
+    return n
